@@ -168,6 +168,61 @@ class World(object):
         snap.backup(dst)
         dst.close()
 
+    # -- a second API worker process ------------------------------------------
+    def start_peer(self):
+        """Fork a second worker process (its own module state, caches and
+        enforcer; the same database).  Requests sent to it are served by the
+        same code, as by another uwsgi/gunicorn worker."""
+        import multiprocessing
+        if getattr(self, '_peer', None) is not None:
+            return
+        ctx = multiprocessing.get_context('fork')
+        parent, child = ctx.Pipe()
+
+        def serve(conn):
+            import traceback
+            while True:
+                try:
+                    msg = conn.recv()
+                except EOFError:
+                    return
+                if msg is None:
+                    return
+                try:
+                    r = self.request(*msg)
+                    conn.send((r.status, r.headers, r.body))
+                except Exception:
+                    conn.send(('error', traceback.format_exc(), b''))
+        p = ctx.Process(target=serve, args=(child,), daemon=True)
+        p.start()
+        child.close()
+        self._peer = (p, parent)
+
+    def peer_request(self, method, path, body=None, version=None,
+                     headers=None):
+        self.start_peer()
+        p, conn = self._peer
+        conn.send((method, path, body, version, headers))
+        if not conn.poll(120):
+            raise RuntimeError('peer worker hung')
+        status, hdrs, data = conn.recv()
+        if status == 'error':
+            raise RuntimeError('peer worker failed: %s' % hdrs)
+        return Response(status, hdrs, data)
+
+    def stop_peer(self):
+        if getattr(self, '_peer', None) is None:
+            return
+        p, conn = self._peer
+        try:
+            conn.send(None)
+        except Exception:
+            pass
+        p.join(2)
+        if p.is_alive():
+            p.terminate()
+        self._peer = None
+
     # -- requests ---------------------------------------------------------
     def request(self, method, path, body=None, version=None, headers=None):
         """Run one request through the full WSGI pipeline."""
